@@ -187,7 +187,7 @@ func vArbitraryF(n int, unbuffered int, fullMaps bool) *vEnv {
 		present = vChoose("presence", 2) // 0: counters maps empty where possible, 1: every entry present
 	}
 	for i, p := range e.ps {
-		capacity := 4
+		capacity := 8
 		if i == unbuffered {
 			capacity = 0
 		}
